@@ -666,7 +666,10 @@ class result_dep(UptodateCalculator):
 
         def result_saver():
             # get latest value after execution of dependent task
-            return {self.result_name: self._get_dep_result(dep_task)}
+            # look up the task again, a delayed task-creator might have
+            # replaced the placeholder task by the real (group) task
+            return {self.result_name:
+                    self._get_dep_result(self.tasks_dict[self.dep_name])}
         task.value_savers.append(result_saver)
 
         last_success = values.get(self.result_name)
